@@ -199,6 +199,16 @@ namespace _ST_PRIVATE
         format_numeric_string(format, output, formatter.text(), formatter.size(), ntype);
     }
 
+    // Narrowing a wide integer to int must not turn an out-of-range value
+    // into a valid code point, so the range is tested on the full value.
+    template <typename int_T>
+    ST_NODISCARD
+    constexpr int char_code(int_T value) noexcept
+    {
+        return (static_cast<unsigned long long>(value) > 0x10FFFFull)
+               ? -1 : static_cast<int>(value);
+    }
+
     inline void format_char(const ST::format_spec &format,
                             ST::format_writer &output, int ch)
     {
